@@ -60,6 +60,12 @@ CLAIMED = {
  "C04": ("path-sensitive symbolic bound prover (real arithmetic: Max/Min/Ceil algebra, convex smoothing idiom, branch facts, constructor-derived field invariants, call-site entry facts) over go/ssa",
          "Static, real arithmetic (IEEE rounding and overflow not modelled): every post-construction store of the estimate of AIMD, Vegas, Gradient and Gradient2 is proved on every path >= 1, >= the configured minimum and <= max(configured maximum, old estimate) under the configuration assumptions the property grants and the inductive hypothesis; every division / Sqrt / Log10 that can run during a sample has its divisor proved != 0 (argument in domain), so no NaN or panic source is unguarded; every lookup-table index is proved within [0, len); wrappers report the delegate's estimate. NaN propagation, rounding and user-supplied functions are not covered.",
          "5/C04"),
+ "C06": ("path-sensitive symbolic bound proof on drop paths + function-field role recovery from default closures + all-paths drop routing over go/ssa",
+         "Static direction clauses in real arithmetic: on every path that took the drop flag's true edge, the estimate stored by AIMD, Vegas and Gradient is proved <= max(old estimate, the algorithm's lower clamp), AIMD additionally strictly below the old limit unless at the floor; in Vegas the drop candidate is the decrease function (built-in default x - g(x) with g >= 0 from the table initialiser) applied to the current estimate; every drop path stores a decrease before any demand gate (probe / baseline returns excepted). The exact AIMD value and the bounded-steps convergence to the floor are not decided.",
+         "5/C06"),
+ "C07": ("path-sensitive classification of estimate stores (proved non-raising vs gated) with comparator / operand-provenance check of the demand gate over go/ssa",
+         "Static: every store of the estimate on a non-drop path that is not proved <= the old estimate lies behind the established fact ratio x inFlight >= estimate (ratio 2 for Vegas/Gradient/Gradient2, 1 for AIMD) on the sample's in-flight parameter and the current estimate; every path that computes a new estimate stores it. One recorded known finding (Gradient's probe reset is not gated). The recovery half (bounded-steps return to the ceiling) is not applicable.",
+         "5/C07"),
 }
 
 PENDING_REASON = "check not built yet in this session; see DESIGN.md section 5 for the planned static obligations"
